@@ -31,6 +31,8 @@ const (
 	fitDistinct
 	fitHuge
 	fitShapes
+	// fitTiny is used by C09 / C10 only: positive values around the bottom of the float64 range (subnormal shared fitness)
+	fitTiny = 100
 )
 
 var fitNames = []string{"all-zero", "constant", "uniform", "log-normal", "one-dominant", "stagnating", "distinct-positive", "huge (sum overflows)"}
@@ -52,13 +54,26 @@ type EvoScenario struct {
 	// one ReadPopulation restores from that text (evolve -> store -> restore -> evolve on)
 	RestoreAt int
 	restoring bool
+	// SwitchOptsAt > 0: from the epoch with this index on the executor (the same object) is handed a context that carries
+	// another Options object: a by-value copy with the survival threshold, age significance, drop-off age and stolen babies changed
+	SwitchOptsAt int
 	// CancelAtEnd: after the last epoch one more turnover is started and cancelled while the species reproduce (C16)
 	CancelAtEnd bool
 }
 
+func fitName(shape int) string {
+	if shape == fitTiny {
+		return "tiny (subnormal shares)"
+	}
+	return fitNames[shape]
+}
+
 func (sc *EvoScenario) brief() map[string]interface{} {
 	m := map[string]interface{}{"ctor": ctorNames[sc.Ctor], "start": sc.StartSrc, "parallel": sc.Parallel, "epochs": sc.Epochs,
-		"fitness": fitNames[sc.Fitness], "opts": optsBrief(sc.Opts)}
+		"fitness": fitName(sc.Fitness), "opts": optsBrief(sc.Opts)}
+	if sc.SwitchOptsAt > 0 {
+		m["options_object_switched_at"] = sc.SwitchOptsAt
+	}
 	if sc.RestoreAt > 0 {
 		m["restore_at"] = sc.RestoreAt
 	}
@@ -152,6 +167,8 @@ func assignFitness(r *rand.Rand, shape, gen int, pop *genetics.Population) {
 			}
 		case fitDistinct:
 			org.Fitness = math.Exp(r.NormFloat64()*2) + float64(i+1)*1e-7
+		case fitTiny:
+			org.Fitness = (1 + r.Float64()*9) * 1e-308 * pick(r, 1.0, 0.1, 0.01)
 		case fitHuge:
 			// finite values whose sum over the population is not: a few outliers near the top of the float64 range, or all equal
 			// to the largest finite value
@@ -218,6 +235,16 @@ func runScenario(c *Ctx, sc *EvoScenario, mon EvoMonitor) {
 			}
 			c.Count("populations.restored_mid_run", 1)
 			mon.Constructed(c, sc, pop)
+		}
+		if sc.SwitchOptsAt > 0 && gen == sc.SwitchOptsAt {
+			tuned := *sc.Opts
+			tuned.SurvivalThresh = pick(c.G, 0.1, 0.35, 0.6, 0.95)
+			tuned.AgeSignificance = 1 + c.G.Float64()
+			tuned.DropOffAge = 1 + c.G.Intn(20)
+			tuned.BabiesStolen = pick(c.G, 0, 2, tuned.PopSize/4)
+			sc.Opts = &tuned
+			ctx = neat.NewContext(context.Background(), sc.Opts)
+			c.Count("scenarios.options_object_switched", 1)
 		}
 		assignFitness(c.G, sc.Fitness, gen, pop)
 		var preSnaps []*SnapGenome
